@@ -140,14 +140,40 @@ fn check_group_api(g: &GroupedQuantity) -> Verdict {
     Ok(())
 }
 
+fn check_try_add(a: &ScaledQuantity, b: &ScaledQuantity, ops: &Vec<Op>) -> Verdict {
+    let both = Totals::of([a.clone(), b.clone()].iter());
+    let addable = both.texts.is_empty() && both.sums.len() == 1;
+    match guard(|| a.try_add(b, &BUNDLED)) {
+        Err(p) => vbail!("c10.panic.add", "Quantity::try_add panicked: {p}; {a:?} + {b:?}; history {ops:?}"),
+        Ok(Ok(sum)) => {
+            vensure!(addable, "c10.try-add-accepted", "try_add({a:?}, {b:?}) gave {sum:?} although the two cannot be summed (text value or different classes of unit); history {ops:?}");
+            vensure!(sum.unit() == a.unit(), "c10.try-add-unit", "try_add({a:?}, {b:?}) gave {sum:?}: the unit of the left operand is kept by contract; history {ops:?}");
+            if let Err(e) = both.same(&Totals::of([sum.clone()].iter())) {
+                vbail!("c10.try-add-total", "try_add({a:?}, {b:?}) gave {sum:?}: {e}; history {ops:?}");
+            }
+        }
+        Ok(Err(e)) => {
+            vensure!(!addable, "c10.try-add-refused", "try_add({a:?}, {b:?}) failed with {e} although both are numeric and of the same class of unit; history {ops:?}");
+        }
+    }
+    Ok(())
+}
+
 fn check_history(ops: &Vec<Op>, st: &mut Stats) -> Verdict {
     let mut g = GroupedQuantity::empty();
     let mut model = Totals::default();
     let mut merges = 0;
+    let mut prev: Option<ScaledQuantity> = None;
     for (i, op) in ops.iter().enumerate() {
         match op {
             Op::Add(q) => {
                 let q = q.quantity();
+                // the pairwise operation behind the group: adding to the previous quantity either fails
+                // (text, different class of unit) or gives their sum in the unit of the left operand
+                if let Some(prev) = &prev {
+                    check_try_add(prev, &q, ops)?;
+                }
+                prev = Some(q.clone());
                 model.add(&q);
                 if let Err(p) = guard(|| g.add(&q, &BUNDLED)) {
                     vbail!("c10.panic.add", "GroupedQuantity::add panicked: {p}; history {ops:?}");
@@ -242,6 +268,19 @@ fn check_recipe_grouping(src: &str, r: &ScaledRecipe, st: &mut Stats) -> Verdict
                 }
             }
         }
+        // the ingredient's own views: all_quantities lists exactly those quantities, group_quantities sums them
+        let listed = Totals::of(g.ingredient.all_quantities(&r.ingredients));
+        if let Err(e) = model.same(&listed) {
+            vbail!("c10.all-quantities", "ingredient {} ({:?}): all_quantities() differs from the quantities of the definition and its references: {e}; source {src:?}", g.index, g.ingredient.name);
+        }
+        match guard(|| g.ingredient.group_quantities(&r.ingredients, &BUNDLED)) {
+            Ok(own) => {
+                if let Err(e) = model.same(&Totals::of(own.iter())) {
+                    vbail!("c10.ingredient-group-total", "ingredient {} ({:?}): group_quantities() gives {own}, which differs from the sum of its quantities: {e}; source {src:?}", g.index, g.ingredient.name);
+                }
+            }
+            Err(p) => vbail!("c10.panic.group_ingredients", "group_quantities panicked: {p}; source {src:?}"),
+        }
         let t = Totals::of(g.quantity.iter());
         if let Err(e) = model.same(&t) {
             vbail!("c10.ingredient-group-total", "ingredient {} ({:?}): grouped {} but the quantities of the definition and its references sum differently: {e}; source {src:?}", g.index, g.ingredient.name, g.quantity);
@@ -280,6 +319,12 @@ fn check_recipe_grouping(src: &str, r: &ScaledRecipe, st: &mut Stats) -> Verdict
                     model.add(&Quantity::new(v.clone(), None));
                 }
             }
+        }
+        let listed = Totals::of(g.cookware.all_amounts(&r.cookware).map(|v| Quantity::new(v.clone(), None)).collect::<Vec<_>>().iter());
+        let own = g.cookware.group_amounts(&r.cookware);
+        let own = Totals::of(own.iter().map(|v| Quantity::new(v.clone(), None)).collect::<Vec<_>>().iter());
+        if let Err(e) = model.same(&listed).and_then(|_| model.same(&own)) {
+            vbail!("c10.cookware-group-total", "cookware {} ({:?}): all_amounts() / group_amounts() differ from the amounts of the definition and its references: {e}; source {src:?}", g.index, g.cookware.name);
         }
         let got = Totals::of(g.amount.iter().map(|v| Quantity::new(v.clone(), None)).collect::<Vec<_>>().iter());
         if let Err(e) = model.same(&got) {
@@ -346,6 +391,31 @@ fn check_case(c: &RecipeCase, st: &mut Stats) -> Verdict {
             vbail!("c10.list-total", "list entry {k:?} = {q} differs from the recipes' quantities: {e}; sources {srcs:?}");
         }
         grand.merge(&t);
+    }
+    // the same list built by hand through add_ingredient, from_recipe for a single recipe, and read by the
+    // consuming iterator
+    let mut by_hand = IngredientList::new();
+    for (_, r) in &recipes {
+        for g in r.group_ingredients(&BUNDLED) {
+            if g.ingredient.modifiers().should_be_listed() {
+                by_hand.add_ingredient(g.ingredient.display_name().into_owned(), &g.quantity, &BUNDLED);
+            }
+        }
+    }
+    let mut views: Vec<(&str, BTreeMap<String, Totals>)> = vec![("add_ingredient per grouped ingredient", by_hand.iter().map(|(k, q)| (k.clone(), Totals::of(q.iter()))).collect())];
+    if recipes.len() == 1 {
+        let l = IngredientList::from_recipe(&recipes[0].1, &BUNDLED);
+        views.push(("IngredientList::from_recipe", l.iter().map(|(k, q)| (k.clone(), Totals::of(q.iter()))).collect()));
+    }
+    views.push(("the consuming iterator of the hand-built list", by_hand.into_iter().map(|(k, q)| (k, Totals::of(q.iter()))).collect()));
+    for (what, v) in &views {
+        let vk: Vec<&String> = v.keys().collect();
+        vensure!(vk == keys, "c10.list-views-differ", "add_recipe lists {keys:?} but {what} gives {vk:?}; sources {srcs:?}");
+        for (k, t) in v {
+            if let Err(e) = model[k].same(t) {
+                vbail!("c10.list-views-differ", "entry {k:?} read through {what} differs from the recipes' quantities: {e}; sources {srcs:?}");
+            }
+        }
     }
     st.class_if(recipes.len() > 1, "multi-recipe-list");
     if !model.is_empty() {
